@@ -79,6 +79,10 @@ JudgeC11(e) ==
            reported == nrep > 0
        IN (IF fentry \ expectE # {} THEN << "C11:function-entry:not-a-call-target" >> ELSE <<>>)
           \o (IF expectE \ fentry # {} THEN << "C11:function-entry:call-target-not-a-function" >> ELSE <<>>)
+          \* a label that a call names but that stands in front of no instruction (end of file, data only) is no function
+          \* although a call names it: the analysis must not go on as if nothing were wrong
+          \o (IF \E i \in 1..NN(cfg) : KN(cfg, i) = "call" /\ Target(cfg, cfg.nodes[i].node.lab) = 0
+                THEN << "C11:function-entry:called-label-carries-no-instruction" >> ELSE <<>>)
           \o (IF tableE # fentry THEN << "C11:table:entries-differ-from-function-entries" >> ELSE <<>>)
           \o Cat(row, Len(cfg.funcs), 1)
           \o Cat(own, NN(cfg), 1)
